@@ -66,6 +66,7 @@ type c03Job struct {
 	content string
 	ehints  map[gozxing.EncodeHintType]interface{}
 	reads   []c03Read
+	ref     []bool // reference module pattern of the canonical content (diagnosis of a failed read only)
 }
 
 // c03Read is one reader that must return want (or one of the alternatives).
@@ -209,7 +210,7 @@ func (e *c03Env) c03Do(job *c03Job, sz c03Size) bool {
 		data["decode_hints"] = fmt.Sprint(rd.hints)
 		site := job.sym + "." + rd.label
 		if err != nil {
-			e.viol(site+":error", fmt.Sprintf("%s: %s of the written image of %s (%dx%d, %+v) failed: %s %v", job.sym, rd.label, odQuote(job.content), m.GetWidth(), m.GetHeight(), sz, odErrKind(err), err), data)
+			e.viol(site+":error"+c03Diag(m, job.ref), fmt.Sprintf("%s: %s of the written image of %s (%dx%d, %+v) failed: %s %v", job.sym, rd.label, odQuote(job.content), m.GetWidth(), m.GetHeight(), sz, odErrKind(err), err), data)
 			return false
 		}
 		got, gf := res.GetText(), res.GetBarcodeFormat()
@@ -222,13 +223,32 @@ func (e *c03Env) c03Do(job *c03Job, sz c03Size) bool {
 			continue
 		}
 		if got != rd.want {
-			e.viol(site+":wrong-text", fmt.Sprintf("%s: %s of the written image of %s returned %s (%v), canonical content is %s", job.sym, rd.label, odQuote(job.content), odQuote(got), gf, odQuote(rd.want)), data)
+			e.viol(site+":wrong-text"+c03Diag(m, job.ref), fmt.Sprintf("%s: %s of the written image of %s returned %s (%v), canonical content is %s", job.sym, rd.label, odQuote(job.content), odQuote(got), gf, odQuote(rd.want)), data)
 		} else {
 			e.viol(site+":wrong-format", fmt.Sprintf("%s: %s of the written image of %s returned format %v, expected %v", job.sym, rd.label, odQuote(job.content), gf, rd.format), data)
 		}
 		return false
 	}
 	return true
+}
+
+// c03Diag classifies a failed read (signature suffix only, no influence on the verdict):
+// do the bars the writer drew equal the reference pattern of the canonical content?
+func c03Diag(m *gozxing.BitMatrix, ref []bool) string {
+	if ref == nil {
+		return ""
+	}
+	bars := odTrim(odMatrixRow(m, 0))
+	if len(bars) == 0 || len(bars)%len(ref) != 0 {
+		return "/bars-differ-from-reference"
+	}
+	k := len(bars) / len(ref)
+	for i, b := range bars {
+		if b != ref[i/k] {
+			return "/bars-differ-from-reference"
+		}
+	}
+	return "/bars-match-reference"
 }
 
 // ---------------------------------------------------------------------------
@@ -245,7 +265,7 @@ func c03UPCEANJob(s *odUPCEAN, payload string, withCheck bool, multi bool) *c03J
 		content = full
 		form = fmt.Sprint(s.payload + 1)
 	}
-	job := &c03Job{sym: s.name + form, format: s.format, mkW: s.writer, wname: s.name, content: content}
+	job := &c03Job{sym: s.name + form, format: s.format, mkW: s.writer, wname: s.name, content: content, ref: s.pattern(full)}
 	job.reads = append(job.reads, c03Read{label: "reader", rname: s.name, mk: s.reader, want: full, format: s.format})
 	if multi {
 		pf := map[gozxing.DecodeHintType]interface{}{gozxing.DecodeHintType_POSSIBLE_FORMATS: []gozxing.BarcodeFormat{s.format}}
@@ -780,11 +800,11 @@ func c03Sweep(r *fw.Rec, s *odUPCEAN, lo, hi, sample int) {
 			}
 			res, err := x.Decode(bmp, h)
 			if err != nil {
-				r.Violation("model-mismatch", s.name+form+"."+labels[i]+":error", fmt.Sprintf("%s: %s of the written image of %s failed: %s %v (canonical content %s)", s.name, labels[i], content, odErrKind(err), err, full), data)
+				r.Violation("model-mismatch", s.name+form+"."+labels[i]+":error"+c03Diag(m, s.pattern(full)), fmt.Sprintf("%s: %s of the written image of %s failed: %s %v (canonical content %s)", s.name, labels[i], content, odErrKind(err), err, full), data)
 				return false
 			}
 			if res.GetText() != full {
-				r.Violation("model-mismatch", s.name+form+"."+labels[i]+":wrong-text", fmt.Sprintf("%s: %s of the written image of %s returned %s, canonical content is %s", s.name, labels[i], content, res.GetText(), full), data)
+				r.Violation("model-mismatch", s.name+form+"."+labels[i]+":wrong-text"+c03Diag(m, s.pattern(full)), fmt.Sprintf("%s: %s of the written image of %s returned %s, canonical content is %s", s.name, labels[i], content, res.GetText(), full), data)
 				return false
 			}
 			if res.GetBarcodeFormat() != s.format {
@@ -834,7 +854,7 @@ func c03(c *fw.Ctx) {
 	// --- UPC/EAN round trips ---
 	for _, s := range odAllUPCEAN {
 		s := s
-		ncase := c.Pick(40, 400)
+		ncase := c.Pick(800, 4000)
 		for i := 0; i < ncase; i++ {
 			c.Run(fmt.Sprintf("%s/rt/%d", s.name, i), func(r *fw.Rec) {
 				e := newC03Env(r)
@@ -856,7 +876,7 @@ func c03(c *fw.Ctx) {
 		}
 	}
 	// --- Code 39 ---
-	ncase := c.Pick(30, 300)
+	ncase := c.Pick(700, 3500)
 	for i := 0; i < ncase; i++ {
 		c.Run(fmt.Sprintf("code39/rt/%d", i), func(r *fw.Rec) {
 			e := newC03Env(r)
@@ -899,9 +919,9 @@ func c03(c *fw.Ctx) {
 	// --- Code 128: auto and forced sets ---
 	for _, force := range []string{"", "A", "B", "C"} {
 		force := force
-		n128 := c.Pick(30, 300)
+		n128 := c.Pick(500, 2500)
 		if force == "" {
-			n128 = c.Pick(60, 600)
+			n128 = c.Pick(1500, 7500)
 		}
 		for i := 0; i < n128; i++ {
 			c.Run(fmt.Sprintf("code128/%s/%d", map[string]string{"": "auto", "A": "A", "B": "B", "C": "C"}[force], i), func(r *fw.Rec) {
@@ -936,13 +956,13 @@ func c03(c *fw.Ctx) {
 		}
 	}
 	// --- ITF ---
-	nitf := c.Pick(1, 8)
+	nitf := c.Pick(15, 80)
 	for _, n := range c03ITFLengths {
 		n := n
 		for i := 0; i < nitf; i++ {
 			c.Run(fmt.Sprintf("itf/len%d/%d", n, i), func(r *fw.Rec) {
 				e := newC03Env(r)
-				for k := 0; k < 12; k++ {
+				for k := 0; k < 24; k++ {
 					content := odDigits(r.Rng, n)
 					if k == 0 {
 						content = strings.Repeat("0", n)
@@ -983,7 +1003,7 @@ func c03(c *fw.Ctx) {
 		}
 	})
 	// --- Codabar ---
-	ncb := c.Pick(30, 300)
+	ncb := c.Pick(700, 3500)
 	for i := 0; i < ncb; i++ {
 		c.Run(fmt.Sprintf("codabar/rt/%d", i), func(r *fw.Rec) {
 			e := newC03Env(r)
